@@ -404,6 +404,20 @@ def dynamic_histories():
             yield ops + [('step', 3)]
             ops = [('add', f's{k}', 0, 1, 0, None, [second, ('remove', f's{pos}', 1)] if k == pos else []) for k in range(5)]
             yield ops + [('step', 3)]
+    # a registration and the removal of a LATER system in the same timestep, either order, by one actor or by two:
+    # the count of systems is back to what it was and the registry may have been rebuilt in between - the removed
+    # system must still not run on its turn
+    for prio in (-1, 0, 5):
+        for target in (2, 3):
+            for first_add in (True, False):
+                edits = [('add', 'n', prio, 1), ('remove', f's{target}', 1)]
+                if not first_add:
+                    edits.reverse()
+                ops = [('add', f's{k}', 0, 1, 0, None, edits if k == 0 else []) for k in range(5)]
+                yield ops + [('step', 3)]
+                ops = [('add', f's{k}', 0, 1, 0, None, [edits[0]] if k == 0 else ([edits[1]] if k == 1 else []))
+                       for k in range(5)]
+                yield ops + [('step', 3)]
     # equal priorities with a mid-step removal of a system that is not the first of its priority class
     for target in (1, 2, 3):
         ops = [('add', f's{k}', (1 if k == 0 else 0), 1, 0, None, [('remove', f's{target}', 1)] if k == 0 else [])
